@@ -4,6 +4,7 @@ use crate::{
     model::{
         Namespace,
         field::as_field_name,
+        structures::xml_name_to_rust_name,
         helpers::{write_check_restrictions_footer, write_check_restrictions_header},
     },
     reader::WriteXml,
@@ -52,7 +53,7 @@ where
     W: io::Write,
 {
     // generate an async fn for the operation
-    let rust_fn_name = to_snake_case(operation_name);
+    let rust_fn_name = as_field_name(operation_name);
     let request_name = format!("{operation_name}InputEnvelope");
     let response_name = operation
         .output
@@ -123,7 +124,7 @@ where
                 .rust_type
                 .xml_name()
                 .ok_or_else(|| WriterError::NodeNotFound(part_name.clone()))?;
-            let rust_type = to_pascal_case(xml_name);
+            let rust_type = xml_name_to_rust_name(xml_name);
 
             if let Some(namespace) = header.in_namespace.as_ref() {
                 let abbreviation = namespace.abbreviation.as_str();
@@ -166,7 +167,7 @@ where
     let body_field_name = as_field_name(&to_snake_case(body));
     let xml_name = body;
     // the type is spelled the way the struct for that element is
-    let body = to_pascal_case(body);
+    let body = xml_name_to_rust_name(body);
 
     writeln!(writer, "#[derive(Debug, Default, YaSerialize, YaDeserialize)]")?;
 
